@@ -8,6 +8,26 @@ use crate::rat;
 
 const SHARD: usize = 400;
 
+/// Watchdog: a case on which the implementation does not return (a loop that stopped making progress) must not hang the check.
+/// The case being executed and its start time are published here; a thread prints `HANG <spec line>` and ends the process with
+/// status 3 when one case runs longer than VERIF_CASE_TIMEOUT seconds (default 600; the longest legitimate case takes seconds).
+static CURRENT: std::sync::Mutex<Option<(String, std::time::Instant)>> = std::sync::Mutex::new(None);
+fn start_watchdog(outdir: String) {
+    let limit: u64 = std::env::var("VERIF_CASE_TIMEOUT").ok().and_then(|v| v.parse().ok()).unwrap_or(600);
+    std::thread::spawn(move || loop {
+        std::thread::sleep(std::time::Duration::from_millis(500));
+        let cur = CURRENT.lock().map(|g| g.clone()).unwrap_or(None);
+        if let Some((line, t0)) = cur {
+            if t0.elapsed().as_secs() >= limit {
+                let _ = fs::write(format!("{}/hang.txt", outdir), format!("{}\n", line));
+                println!("HANG {}", line);
+                eprintln!("HANG {}", line);
+                std::process::exit(3);
+            }
+        }
+    });
+}
+
 pub fn run(props: &[(&str, Prop)]) {
     let args: Vec<String> = std::env::args().collect();
     if args.len() < 5 { eprintln!("usage: harness gen <prop> <tier> <seed> <outdir> | harness exec <prop> <specfile> <outdir>"); std::process::exit(2); }
@@ -20,6 +40,7 @@ pub fn run(props: &[(&str, Prop)]) {
         _ => { eprintln!("bad command"); std::process::exit(2) }
     };
     fs::create_dir_all(outdir).unwrap();
+    start_watchdog(outdir.to_string());
     let mut seen = HashSet::new();
     let mut stats = Stats::default();
     let mut kept: Vec<(String, String)> = vec![];
@@ -31,7 +52,9 @@ pub fn run(props: &[(&str, Prop)]) {
         generated += 1;
         rat::overflow_reset();
         set_entry(&s);
+        if let Ok(mut g) = CURRENT.lock() { *g = Some((line.clone(), std::time::Instant::now())); }
         let out = (p.exec)(&s, &mut stats);
+        if let Ok(mut g) = CURRENT.lock() { *g = None; }
         if rat::overflowed() { *stats.skipped.entry("rational-overflow".into()).or_insert(0) += 1; continue; }
         match out {
             Outcome::Case(term) => { stats.bump(format!("kind:{}", s.kind)); if stats.samples.len() < 4 { stats.samples.push(format!("{} => {}", line, term)); } kept.push((line, term)); }
